@@ -2,6 +2,7 @@ package rules
 
 import (
 	"go/token"
+	"strings"
 	"go/types"
 
 	"golang.org/x/tools/go/ssa"
@@ -25,12 +26,63 @@ func init() {
 	reg("C03.cls", "PATH", "CLS -> StartClose -> RDY 0 and stateClosing; RDY while closing is ignored", 4, c03cls)
 	reg("C03.topicpause", "ORIG+PATH", "topic pump: paused (or no channels) => queue sources nil after every token; publish path never consults the pause flag", 3, c03topicpause)
 	reg("C03.wake", "PATH", "pause/unpause store the flag matching the request, then wake every consumer (channel) / hand a token to the pump (topic)", 4, c03wake)
+	reg("C03.notify", "PATH", "every change of a readiness input (RDY count, in-flight count, pause) wakes the connection's pump", 8, c03notify)
 }
 
 // optsField: v is a load of Options.<name> (through getOpts()).
 func isOptsField(c *an.Ctx, v ssa.Value, pkg, name string) bool {
 	f, _ := an.LoadedField(an.Strip(v))
 	return f != nil && f == c.P.Field(pkg, "Options", name)
+}
+
+// errValueIs: error value v is built by ctor with a code in codes – directly, or as the (non-nil) result of a
+// helper of this module all of whose error returns are.
+func errValueIs(v ssa.Value, ctor *ssa.Function, codes []string, depth int) (bool, string) {
+	if depth > 3 {
+		return false, "helper nesting too deep"
+	}
+	for _, o := range an.Origins(v) {
+		if k, ok := o.(*ssa.Const); ok && k.Value == nil {
+			continue
+		}
+		var call *ssa.Call
+		switch x := o.(type) {
+		case *ssa.Call:
+			call = x
+		case *ssa.Extract:
+			call, _ = x.Tuple.(*ssa.Call)
+		}
+		if call == nil {
+			return false, "returns " + o.String() + ", not " + ctor.Name()
+		}
+		if an.IsCallTo(call, ctor) {
+			code, ok := an.ConstString(call.Call.Args[1])
+			okc := false
+			for _, k := range codes {
+				if ok && code == k {
+					okc = true
+				}
+			}
+			if !okc {
+				return false, "error code " + code + " is not one of the documented codes"
+			}
+			continue
+		}
+		h := an.StaticCallee(call)
+		if h == nil || h.Blocks == nil || h.Pkg == nil || !strings.HasPrefix(h.Pkg.Pkg.Path(), an.ModPath) {
+			return false, "returns the result of " + call.String() + ", not " + ctor.Name()
+		}
+		for _, r := range an.Returns(h) {
+			e := errOperand(r)
+			if e == nil || an.IsNilConst(e) {
+				continue
+			}
+			if ok, why := errValueIs(e, ctor, codes, depth+1); !ok {
+				return false, "helper " + h.Name() + ": " + why
+			}
+		}
+	}
+	return true, ""
 }
 
 // errReturnsFrom: every return reachable from the given edges carries an error built by ctor with a code in codes.
@@ -46,23 +98,9 @@ func errReturnsFrom(fn *ssa.Function, edges []an.Edge, ctor *ssa.Function, codes
 			why = "returns without an error"
 			return true
 		}
-		for _, o := range an.Origins(e) {
-			call, ok := o.(*ssa.Call)
-			if !ok || !an.IsCallTo(call, ctor) {
-				why = "returns " + o.String() + ", not " + ctor.Name()
-				return true
-			}
-			code, ok := an.ConstString(call.Call.Args[1])
-			okc := false
-			for _, k := range codes {
-				if ok && code == k {
-					okc = true
-				}
-			}
-			if !okc {
-				why = "error code " + code + " is not one of the documented codes"
-				return true
-			}
+		if ok, w := errValueIs(e, ctor, codes, 0); !ok {
+			why = w
+			return true
 		}
 		return false
 	}}
@@ -599,6 +637,24 @@ func c03topicpause(c *an.Ctx) {
 			}
 		}
 	}
+	// the start signal arms the queues only after consulting the pause flag
+	startF := c.P.Field("nsqd", "Topic", "startChan")
+	for _, ssel := range an.Selects(fn) {
+		for _, st := range an.SelectStates(ssel) {
+			if st.State.Dir != types.RecvOnly || !isLoadOfField(st.State.Chan, startF) {
+				continue
+			}
+			q := &an.PathQ{Fn: fn, StartEdges: st.Chosen, AllConsts: true,
+				Sink: func(in ssa.Instruction, ps *an.PathState) bool { return in == ssa.Instruction(sel) && sink(in, ps) },
+				Cut:  func(in ssa.Instruction, ps *an.PathState) bool { return isCallToOn(in, isPaused, nil) || firstSelect(in, ps) }}
+			w, found := q.Find()
+			if found {
+				c.Bad(fn, "start re-evaluates pause", ssel.Pos(), "after Start() the pump arms its queues without reading the pause flag: a topic paused before it was started (restored from metadata, or paused while GetTopic was still pre-creating channels) feeds its channels anyway", w)
+			} else {
+				c.OK(fn, "start re-evaluates pause", ssel.Pos(), "")
+			}
+		}
+	}
 	// publish path ignores the pause flag
 	pausedF := c.P.Field("nsqd", "Topic", "paused")
 	for _, name := range []string{"(*Topic).PutMessage", "(*Topic).PutMessages", "(*Topic).put"} {
@@ -707,5 +763,74 @@ func c03wake(c *an.Ctx) {
 			}
 		}
 		c.Check(good, fn, "forwards doPause("+spec.val+")", fn.Pos(), "", spec.m+" does not forward doPause("+spec.val+")")
+	}
+}
+
+func c03notify(c *an.Ctx) {
+	try := c.Fn("nsqd", "(*clientV2).tryUpdateReadyState")
+	if try == nil {
+		return
+	}
+	isWake := func(in ssa.Instruction, _ *an.PathState) bool { return isCallToOn(in, try, nil) }
+	// unconditional wakers
+	for _, name := range []string{"FinishedMessage", "RequeuedMessage", "TimedOutMessage", "Empty", "Pause", "UnPause"} {
+		fn := c.Fn("nsqd", "(*clientV2)."+name)
+		if fn == nil {
+			continue
+		}
+		q := &an.PathQ{Fn: fn, StartEntry: true, Sink: an.IsReturn, Cut: isWake}
+		w, f := q.Find()
+		if f {
+			c.Bad(fn, "wakes the pump", fn.Pos(), name+" can return without tryUpdateReadyState(): a pump parked in select with stale readiness keeps (not) delivering until something else wakes it", w)
+		} else {
+			c.OK(fn, "wakes the pump", fn.Pos(), "")
+		}
+	}
+	// SetReadyCount: wake whenever the count changed (in either direction)
+	if fn := c.Fn("nsqd", "(*clientV2).SetReadyCount"); fn != nil {
+		var old ssa.Value
+		an.Instrs(fn, func(in ssa.Instruction) {
+			if call, ok := in.(*ssa.Call); ok && an.StdCallee(call, "sync/atomic", "SwapInt64") {
+				old = call
+			}
+		})
+		q := &an.PathQ{Fn: fn, StartEntry: true, Sink: an.IsReturn, Cut: isWake,
+			CutEdge: func(e an.Edge, _ *an.PathState) bool {
+				for _, cmp := range an.CmpsOnEdge(e) {
+					if cmp.Op == token.EQL && old != nil && ((cmp.X == old && isParam(cmp.Y, fn, 1)) || (cmp.Y == old && isParam(cmp.X, fn, 1))) {
+						return true
+					}
+				}
+				return false
+			}}
+		w, f := q.Find()
+		if f || old == nil {
+			c.Bad(fn, "any RDY change wakes the pump", fn.Pos(), "SetReadyCount can change the count (up or down) without waking the pump: after RDY 0 / a lower RDY / CLS the pump stays parked on live queues and sends a message the consumer no longer allows", w)
+		} else {
+			c.OK(fn, "any RDY change wakes the pump", fn.Pos(), "")
+		}
+	}
+	// tryUpdateReadyState: non-blocking send on ReadyStateChan
+	rsF := c.P.Field("nsqd", "clientV2", "ReadyStateChan")
+	good := false
+	for _, sel := range an.Selects(try) {
+		for _, st := range sel.States {
+			if st.Dir == types.SendOnly && isLoadOfField(st.Chan, rsF) && !sel.Blocking {
+				good = true
+			}
+		}
+	}
+	c.Check(good, try, "wake-up is a non-blocking send on ReadyStateChan", try.Pos(), "", "tryUpdateReadyState does not do a non-blocking send on ReadyStateChan")
+	// the pump listens on it
+	if pump := c.Fn("nsqd", "(*protocolV2).messagePump"); pump != nil {
+		listens := false
+		for _, sel := range an.Selects(pump) {
+			for _, st := range sel.States {
+				if st.Dir == types.RecvOnly && isLoadOfField(st.Chan, rsF) {
+					listens = true
+				}
+			}
+		}
+		c.Check(listens, pump, "pump selects on ReadyStateChan", pump.Pos(), "", "the consumer pump no longer receives from ReadyStateChan: readiness changes are never noticed while it is parked")
 	}
 }
